@@ -11,6 +11,19 @@ neither symmetry nor the triangle inequality is assumed.
 "Inputs are not modified" and float rounding are outside the model (checked on the real code by
 byte snapshots / tolerances in harness/props/c01.py).
 All theorems: every size `n`, every table, every stopping parameter, every proposal list / oracle.
+
+Hypotheses that are NOT guards of the code but the property's own quantifier:
+* `nClusters ≠ some 0` and `0 ≤ cutoff` ("cluster counts / radii"): `kcenters(n_clusters=0)` returns the empty
+  clustering and a negative radius with more clusters than frames re-adds frame 0; the code checks neither.
+* init centers / supplied center indices are DISTINCT frames of the data (`Nodup`, `< n`): "data sets of distinct
+  points", "start from frames of the data".  With a repeated init frame the real code (and the model, see the
+  `example` after `kcenters_consistent`) reports fewer center indices than center coordinates, because
+  `find_cluster_centers` sees no frame labelled with the second copy.  Outside the quantifier; the harness runs
+  such inputs only to compare code and model (tag `outside-quantifier:repeated-init-frame`).
+* `WarmOK` with supplied labels/distances assumes that the caller's arrays are `Consistent` for the supplied (or
+  inferred) centers - "starting from a supplied consistent state".  The code itself only asserts
+  `distances[cluster_center_inds] < 0.001`; arrays that pass that assert but are not a nearest-center labelling
+  are outside the property.
 -/
 namespace C01
 open Ens Ens.Cluster Ens.Cluster.Ex
@@ -25,13 +38,37 @@ theorem assignNearest_consistent {D : Table} {n : Nat} (T : TableOK D n) {cs : L
 
 example : Consistent D6 6 s6 := assignNearest_consistent D6_ok (by decide) (by decide) (by decide)
 
-/-- whichever branch of `assign_to_nearest_center` runs (loop over centers, or per-frame argmin when there
-are more centers than frames and they are an `md.Trajectory`) -/
+/-- `assign_to_nearest_center` as the C01 entry points call it: centers = distinct frames of the data, hence
+at most `n` of them, hence the loop branch (the per-frame argmin branch needs more centers than frames; for it
+see `assignToNearestCenter_nearest` below, which needs neither distinctness nor `c < n`) -/
 theorem assignToNearestCenter_consistent {D : Table} {n : Nat} (T : TableOK D n) {cs : List Nat} {xyz : Bool}
     {a : Arr} (hne : cs ≠ []) (hnd : cs.Nodup) (hlt : ∀ c ∈ cs, c < n)
     (h : assignToNearestCenter D n cs xyz = .ok a) :
     Consistent D n { arr := a, ctrInds := cs, ctrFrames := cs } :=
   Consistent.of_runMin T (RunMin.assignToNearestCenter h hne) hne (Inj_of_nodup hnd) hlt
+
+/-- BOTH branches of `assign_to_nearest_center`, for ANY non-empty list of centers given as columns of the table
+(repeats allowed, more centers than frames allowed - with `xyz = true` that is the per-frame argmin branch):
+every frame's label is a position of the center list, its distance is the table distance to that center, and no
+center is strictly closer.  ("Centers own their label at distance 0" is meaningless for repeated centers and is
+not claimed here.) -/
+theorem assignToNearestCenter_nearest {D : Table} {n : Nat} {cs : List Nat} {xyz : Bool} {a : Arr}
+    (hne : cs ≠ []) (h : assignToNearestCenter D n cs xyz = .ok a) :
+    a.fresh = false ∧
+    (∀ f, f < n → ∃ (k c : Nat), a.assign f = (k : Nat) ∧ cs[k]? = some c ∧ a.dist f = D f c) ∧
+    (∀ f, f < n → ∀ (k c : Nat), cs[k]? = some c → ¬ D f c < a.dist f) := by
+  have hr := RunMin.assignToNearestCenter h hne
+  refine ⟨?_, hr.lab hne, hr.best⟩
+  cases hx : a.fresh
+  · rfl
+  · exact absurd (hr.fresh_iff.mp hx) hne
+
+/-- the argmin branch really runs and agrees with the loop branch: 3 centers (one repeated), 2 frames -/
+example : assignToNearestCenter D6 2 [5, 1, 1] true = assignArgmin D6 2 [5, 1, 1] ∧
+    (assignToNearestCenter D6 2 [5, 1, 1] true).toOption.map (fun a => (a.assignA, a.distA)) =
+      some (#[1, 1], #[1, 0]) ∧
+    (assignToNearestCenter D6 2 [5, 1, 1] false).toOption.map (fun a => (a.assignA, a.distA)) =
+      some (#[1, 1], #[1, 0]) := by decide +kernel
 
 /-- `find_cluster_centers` recovers the center indices of a consistent state (so the indices inferred by the
 warm starts are the centers the labels refer to) -/
@@ -92,6 +129,17 @@ theorem kcenters_consistent {D : Table} {n : Nat} (T : TableOK D n) {nClusters :
       simp only [kcentersWarm_ok T hne hnd hlt, h0, if_false] at h
       refine fin _ ?_ h0 h
       exact { frames := rfl, inds_lt := hlt, inj := Inj_of_nodup hnd, rm := RunMin.assignNearest D n cs }
+
+/-- outside the quantifier: a repeated init frame leaves the second copy without any labelled frame, so
+`find_cluster_centers` returns one index for two coordinates (code and model agree on this) -/
+example : (kcenters D6 6 (some 1) 0 (some [4, 4]) 8).toOption.map (fun s => (s.ctrInds, s.ctrFrames)) =
+    some ([4], [4, 4]) := by decide +kernel
+
+/-- the arrays `kcenters` returns have one entry per frame -/
+theorem kcenters_arrays_sized {D : Table} {n : Nat} {nClusters : Option Nat} {cutoff : Rat}
+    {init : Option (List Nat)} {fuel : Nat} {s : St} (h : kcenters D n nClusters cutoff init fuel = .ok s) :
+    s.arr.distA.size = n ∧ s.arr.assignA.size = n :=
+  kcenters_sized h
 
 /-- …and with `fuel ≥ n` the model's loop always finishes (the Python `while` has no bound; on distinct points
 with a radius ≥ 0 it stops after at most `n` new centers): `kcenters_consistent` is never vacuous -/
@@ -192,5 +240,33 @@ theorem hybrid_consistent {D : Table} {n : Nat} (T : TableOK D n) {nClusters : O
 example : (hybrid D6 6 (some 2) 0 none 8 2 [1, 1, 0, 2]).toOption.map
     (fun r => (r.final.ctrInds, r.final.arr.assignA, r.trace.map (fun st => (st.p, st.acc)))) =
     some ([1, 4], #[0, 0, 0, 1, 1, 1], [(1, true), (4, true), (0, false), (5, false)]) := by decide +kernel
+
+/-- the arrays the sweeps return have one entry per frame whenever the arrays they start from do (accepted
+candidates are built with `n` entries, rejected ones keep the old arrays) -/
+theorem sweeps_arrays_sized {D : Table} {n nIters : Nat} {s : St} {props : Option (List Nat)} {orc : List Nat}
+    {r : Run} (hs : s.arr.distA.size = n ∧ s.arr.assignA.size = n)
+    (h : kmedoidsIterations D n nIters s props orc = .ok r) :
+    r.final.arr.distA.size = n ∧ r.final.arr.assignA.size = n := by
+  obtain ⟨k, _, hsw⟩ := kmedoidsIterations_ok h
+  exact sweepsFrom_sized (k+1) hs hsw
+
+/-- k-hybrid: one label and one distance per frame -/
+theorem hybrid_arrays_sized {D : Table} {n : Nat} {nClusters : Option Nat} {cutoff : Rat}
+    {init : Option (List Nat)} {fuel nIters : Nat} {orc : List Nat} {r : Run}
+    (h : hybrid D n nClusters cutoff init fuel nIters orc = .ok r) :
+    r.final.arr.distA.size = n ∧ r.final.arr.assignA.size = n := by
+  unfold hybrid at h
+  simp only [bind, Except.bind] at h
+  cases hkc : kcenters D n nClusters cutoff init fuel with
+  | error e => simp [hkc] at h
+  | ok s =>
+    simp only [hkc] at h
+    have hs := kcenters_sized hkc
+    by_cases hpos : nIters > 0
+    · simp only [hpos, if_true] at h
+      exact sweeps_arrays_sized hs h
+    · simp only [hpos, if_false, pure, Except.pure] at h
+      injection h with h; subst h
+      exact hs
 
 end C01
